@@ -505,6 +505,16 @@ def substitute_locals(f, expr, depth=3, stop=(), paths_only=False):
 
 
 # ---------------------------------------------------------- string templates
+def _namespace_of(e):
+    """obj for `vars(obj)` / `obj.__dict__`, else None."""
+    if isinstance(e, ast.Call) and isinstance(e.func, ast.Name) and \
+            e.func.id == 'vars' and len(e.args) == 1 and not e.keywords:
+        return e.args[0]
+    if isinstance(e, ast.Attribute) and e.attr == '__dict__':
+        return e.value
+    return None
+
+
 def string_template(e):
     """Canonical form of an expression that builds a string from a constant
     pattern: ('w/{}/{}', [hole expressions]) for
@@ -564,6 +574,28 @@ def string_template(e):
             fmt += '{!r}' if conv == 'r' else '{}'
             holes.append(val)
         return fmt, holes
+    if isinstance(e, ast.BinOp) and isinstance(e.op, ast.Mod) and \
+            isinstance(e.left, ast.Constant) and \
+            isinstance(e.left.value, str) and _namespace_of(e.right):
+        # '%(major)d.%(minor)d' % vars(obj): the fields are obj's attributes
+        import re as _re
+        obj = _namespace_of(e.right)
+        fmt, holes = '', []
+        pos = 0
+        text = e.left.value
+        for m in _re.finditer(r'%(?:%|\((\w+)\)([sdri]))', text):
+            fmt += text[pos:m.start()].replace('{', '{{').replace('}', '}}')
+            pos = m.end()
+            if m.group(0) == '%%':
+                fmt += '%'
+                continue
+            fmt += '{!r}' if m.group(2) == 'r' else '{}'
+            holes.append(ast.Attribute(value=obj, attr=m.group(1),
+                                       ctx=ast.Load()))
+        rest = text[pos:]
+        if '%' in rest:
+            return None
+        return fmt + rest.replace('{', '{{').replace('}', '}}'), holes
     if isinstance(e, ast.BinOp) and isinstance(e.op, ast.Mod) and \
             isinstance(e.left, ast.Constant) and \
             isinstance(e.left.value, str):
@@ -721,7 +753,12 @@ def canon(f, e, depth=4, paths_only=False):
                 isinstance(x, ast.Call) and x.keywords for x in ast.walk(e)):
             import copy
             e = _Positional(f).visit(copy.deepcopy(e))
-    return ' '.join(src(e).split())
+    text = ' '.join(src(e).split())
+    # two expressions a rule has shown to denote the same object in f
+    # (FuncInfo.aliases: [(text, canonical text)], set by that rule)
+    for a, b in getattr(f, 'aliases', None) or ():
+        text = text.replace(a, b)
+    return text
 
 
 def _parse_expr(text):
